@@ -202,6 +202,11 @@ class UdpInverterProtocol(InverterProtocol, asyncio.DatagramProtocol):
                     self._close_transport()
                 return await self.send_request(command)
             return self._max_retries_reached()
+        except OSError:
+            # the socket could not be connected (e.g. network unreachable while retrying): the request ends here,
+            # the next one starts with a full retry budget
+            self._retry = 0
+            raise
         finally:
             if self._lock and self._lock.locked():
                 self._lock.release()
